@@ -4,6 +4,7 @@ import (
 	"fmt"
 	"go/ast"
 	"go/types"
+	"sort"
 	"strings"
 
 	"golang.org/x/tools/go/ssa"
@@ -309,6 +310,12 @@ func (x *Exec) assignExprEffects(ct *Contract, a ast.Expr, eff *Effects, fn *ssa
 	var path []string
 	e := a
 	star := false
+	mapIndex := false
+	if ix, ok := e.(*ast.IndexExpr); ok {
+		// m[k]: the effect is on the map type of m
+		mapIndex = true
+		e = ix.X
+	}
 	for {
 		switch v := e.(type) {
 		case *ast.SelectorExpr:
@@ -372,7 +379,21 @@ func (x *Exec) assignExprEffects(ct *Contract, a ast.Expr, eff *Effects, fn *ssa
 			break
 		}
 		if len(path) == 0 {
+			if mapIndex {
+				if _, isMap := cur.Underlying().(*types.Map); isMap {
+					eff.Keys["map:"+typeKey(cur)+"|"] = true
+					return
+				}
+				eff.All = true
+				return
+			}
 			eff.Keys[typeKey(obj)+"|"+p] = true
+			return
+		}
+	}
+	if mapIndex {
+		if _, isMap := cur.Underlying().(*types.Map); isMap {
+			eff.Keys["map:"+typeKey(cur)+"|"] = true
 			return
 		}
 	}
@@ -472,6 +493,9 @@ func (x *Exec) freshResults(sig *types.Signature, tag string) []Val {
 
 func (x *Exec) callCommon(fr *frame, st *State, cc *ssa.CallCommon, args []Val, reach Term, _ bool, where string) []Val {
 	sig := cc.Signature()
+	saveCC, saveFn := x.curCC, x.curFn
+	x.curCC, x.curFn = cc, fr.fn
+	defer func() { x.curCC, x.curFn = saveCC, saveFn }()
 	if cc.IsInvoke() {
 		recv := x.val(fr, cc.Value)
 		mname := cc.Method.Name()
@@ -526,7 +550,7 @@ func (x *Exec) havocCall(st *State, cc *ssa.CallCommon, what string) {
 	eff := newEffects()
 	x.unknownEffects(cc, eff)
 	if eff.All || len(eff.Keys) > 0 {
-		x.havocEffects(st, eff, "call")
+		x.havocEffects(st, x.protect(eff), "call")
 	}
 	x.havocked[what] = true
 }
@@ -849,6 +873,13 @@ func (x *Exec) applyContract(ct *Contract, f *ssa.Function, sig *types.Signature
 	pre := st.clone()
 	env := &specEnv{x: x, names: names, st: st, old: pre, pkg: pkg}
 	for k, cl := range ct.Req {
+		if !x.inScope(cl) {
+			continue
+		}
+		if cl.Kind == "typeinv" {
+			x.c.Note("representation invariant assumed, not checked at call sites: %s: %s", ct.Name, cl.Text)
+			continue
+		}
 		g := x.evalBool(cl.Expr, env, reach)
 		callee := ct.Name
 		name := fmt.Sprintf("%s#call[%s].pre[%s]", x.fname(), callee, clauseLabel(cl, k))
@@ -867,7 +898,7 @@ func (x *Exec) applyContract(ct *Contract, f *ssa.Function, sig *types.Signature
 	if ct.HasAssigns {
 		x.havocAssigns(ct, f, env, st)
 	} else if eff.All || len(eff.Keys) > 0 {
-		x.havocEffects(st, eff, "ct")
+		x.havocEffects(st, x.protect(eff), "ct")
 	}
 	for g := range eff.Ghosts {
 		if gv, ok := st.ghost[g]; ok {
@@ -875,12 +906,97 @@ func (x *Exec) applyContract(ct *Contract, f *ssa.Function, sig *types.Signature
 		}
 	}
 	res := x.freshResults(sig, sanitize(ct.Name))
-	env2 := &specEnv{x: x, names: names, st: st, old: pre, pkg: pkg, results: res, sig: sig}
-	for _, cl := range ct.Ens {
-		g := x.evalBool(cl.Expr, env2, reach)
-		x.assume(Imp(reach, g))
+	// the callee's universally quantified constants are instantiated with the
+	// caller's quantified constants and with the call's arguments of the same type
+	for _, inst := range x.forallInstances(ct, names) {
+		env2 := &specEnv{x: x, names: inst, st: st, old: pre, pkg: pkg, results: res, sig: sig}
+		for _, cl := range ct.Ens {
+			if !x.inScope(cl) {
+				continue
+			}
+			g := x.evalBool(cl.Expr, env2, reach)
+			x.assume(Imp(reach, g))
+		}
 	}
 	return res
+}
+
+// inScope: a clause tagged `@in:name` applies only when the function under
+// verification has a parameter of that name (environment contracts written
+// against the calling action's parameters).
+func (x *Exec) inScope(cl *Clause) bool {
+	for _, n := range cl.Scope {
+		found := false
+		if x.top != nil {
+			for _, p := range x.top.Params {
+				if p.Name() == n {
+					found = true
+				}
+			}
+		}
+		if !found {
+			return false
+		}
+	}
+	return true
+}
+
+// forallInstances returns the name environments under which a callee's
+// postconditions are assumed: one per combination of candidate values for the
+// callee's `forall` constants (just `names` when it has none). Candidates are the
+// caller's own quantified constants and the call arguments of the same type.
+func (x *Exec) forallInstances(ct *Contract, names map[string]Val) []map[string]Val {
+	out := []map[string]Val{names}
+	for _, fa := range ct.Forall {
+		ft := ghostType(fa.Type)
+		var cands []Val
+		seen := map[string]bool{}
+		add := func(v Val) {
+			if v.T == nil || !types.Identical(v.T, ft) || len(v.L) == 0 {
+				return
+			}
+			k := ""
+			for _, t := range v.L {
+				k += t.S + "|"
+			}
+			if !seen[k] {
+				seen[k] = true
+				cands = append(cands, v)
+			}
+		}
+		for _, v := range x.forallVals {
+			add(v)
+		}
+		var keys []string
+		for n := range names {
+			keys = append(keys, n)
+		}
+		sort.Strings(keys)
+		for _, n := range keys {
+			add(names[n])
+		}
+		if len(cands) > 4 {
+			cands = cands[:4]
+		}
+		var next []map[string]Val
+		for _, base := range out {
+			for _, cv := range cands {
+				m := map[string]Val{}
+				for k, v := range base {
+					m[k] = v
+				}
+				m[fa.Name] = cv
+				next = append(next, m)
+			}
+		}
+		if len(next) == 0 {
+			// no candidate: clauses mentioning the constant cannot be used
+			x.c.Note("contract %s: no instance for quantified constant %s at a call site", ct.Name, fa.Name)
+			return nil
+		}
+		out = next
+	}
+	return out
 }
 
 // havocAssigns havocs exactly the locations named by the assigns clause
@@ -891,6 +1007,10 @@ func (x *Exec) havocAssigns(ct *Contract, f *ssa.Function, env *specEnv, st *Sta
 			if id, ok := se.X.(*ast.Ident); ok && id.Name == "ghost" {
 				continue // handled by caller
 			}
+		}
+		if mt, ref, key, ok := x.mapIndexTarget(a, env); ok {
+			x.havocMapEntry(st, mt, ref, key)
+			continue
 		}
 		addr, ok := x.evalAddr(a, env)
 		if !ok {
@@ -943,4 +1063,54 @@ func (x *Exec) getterCall(f *ssa.Function, args []Val, st *State, reach Term) ([
 		}
 	}
 	return nil, false
+}
+
+// mapIndexTarget recognises an assigns target of the form m[k] where m is a
+// map with a scalar key: the map type, the map reference and the key.
+func (x *Exec) mapIndexTarget(a ast.Expr, env *specEnv) (mt types.Type, ref, key Term, ok bool) {
+	defer func() {
+		if r := recover(); r != nil {
+			ok = false
+		}
+	}()
+	ix, isIx := a.(*ast.IndexExpr)
+	if !isIx {
+		return nil, Term{}, Term{}, false
+	}
+	mv := x.evalSpec(ix.X, env, TTrue)
+	if mv.T == nil {
+		return nil, Term{}, Term{}, false
+	}
+	m, isMap := mv.T.Underlying().(*types.Map)
+	if !isMap {
+		return nil, Term{}, Term{}, false
+	}
+	kv := x.scalarize(x.materialize(x.evalSpec(ix.Index, env, TTrue), m.Key()))
+	mvs := x.scalarize(mv)
+	if len(kv.L) != 1 || len(mvs.L) != 1 {
+		return nil, Term{}, Term{}, false
+	}
+	return mv.T, mvs.L[0], kv.L[0], true
+}
+
+// havocMapEntry gives the entry m[k] an arbitrary presence and value.
+func (x *Exec) havocMapEntry(st *State, mt types.Type, ref, key Term) {
+	m := mt.Underlying().(*types.Map)
+	ks, has, hasKey, ok := x.mapParts(st, mt)
+	if !ok {
+		eff := newEffects()
+		eff.Keys["map:"+typeKey(mt)+"|"] = true
+		x.havocEffects(st, eff, "mapasg")
+		return
+	}
+	x.heapSet(st, hasKey, Store(has, ref, Store(Select(has, ref), key, x.c.Fresh("asg_has", SBool))))
+	for _, l := range shape(m.Elem()) {
+		k := mapKey(mt, "v:"+l.Path)
+		arr := x.heapGet(st, k, SArr(SRef, SArr(ks[0].Sort, l.Sort)))
+		fv := x.c.Fresh("asg_mv", l.Sort)
+		if l.Sort == SRef {
+			x.c.Assume(Op("bvult", SBool, fv, st.ctr))
+		}
+		x.heapSet(st, k, Store(arr, ref, Store(Select(arr, ref), key, fv)))
+	}
 }
